@@ -616,7 +616,177 @@ fn generate(seed: u64, n_cases: usize, tier: &str) {
             out.line(gen_conn(&mut rng, fail_pct, 5, terminal_pct, hang_pct / 3));
         }
     }
+    gen_domain_families(seed, n_cases, thorough, &mut id, &mut out);
     out.flush();
+}
+
+// ------------------------------------------------------------- input-domain families (domain audit)
+//
+// Separately seeded, appended AFTER the random cases (which stay what they were): failure runs long enough for
+// STREAM_RECONNECTION_POLICY to reach its cap (10 failures) and to stay there, scripts of >= 50 `init` outcomes,
+// back-off values beyond u32 / multiplier u8::MAX, initial == max and exact hits of the cap, connections with tens
+// of elements and bursts of non-terminal errors of every kind, payloads 0 and u64::MAX, many subscriptions.
+// Virtual time of a run stays below 2.6e10 ms (see c12.rs: beyond 29 * 2^30 ms tokio's paused-clock timer wheel
+// panics under the harness's far-future timeout).
+
+fn gen_payload(rng: &mut Rng) -> u64 {
+    *rng.pick(&[0u64, 0, 1, 1, 2, 3, u64::MAX, u64::MAX, 4294967296, 9223372036854775808])
+}
+
+fn gen_error_tok(rng: &mut Rng, payload: u64) -> String {
+    let k = *rng.pick(&["e", "e", "m", "v", "n", "s", "k", "u"]);
+    match k {
+        "s" => "s0".to_string(),
+        "k" => format!("k{}", payload % 6),
+        "u" => format!("u{}", payload % 12),
+        _ => format!("{k}{payload}"),
+    }
+}
+
+fn gen_long_conn(rng: &mut Rng, len: usize, t_at: Option<usize>, hang: bool) -> String {
+    let mut toks = vec![];
+    let mut k = 0;
+    while k < len {
+        if Some(k) == t_at {
+            toks.push(format!("T{}", gen_payload(rng)));
+            k += 1;
+        } else if rng.chance(12) {
+            // a burst of non-terminal errors, mostly one and the same
+            let first = { let p = gen_payload(rng); gen_error_tok(rng, p) };
+            for _ in 0..rng.range(3, 9) {
+                let tok = if rng.chance(70) { first.clone() } else { let p = gen_payload(rng); gen_error_tok(rng, p) };
+                toks.push(tok);
+                k += 1;
+            }
+        } else if rng.chance(5) {
+            toks.push(format!("d{}", rng.pick(&[0u64, 1, 999, 60000])));
+            k += 1;
+        } else {
+            toks.push(format!("i{}", gen_payload(rng)));
+            k += 1;
+        }
+    }
+    format!("conn ok {}{}", toks.join(" "), if hang { " hang" } else { "" })
+}
+
+fn gen_domain_families(seed: u64, n_cases: usize, thorough: bool, id: &mut usize, out: &mut Out) {
+    let mut rng = Rng::new(seed ^ 0xD0_12_1D_0D_5EED);
+    let n_extra = if thorough { n_cases / 10 } else { std::cmp::max(40, n_cases / 6) };
+    for k in 0..n_extra {
+        *id += 1;
+        let fam = k % 5;
+        out.case(format!("{}{id}", ["dfail", "dlong", "dbig", "dedge", "dconn"][fam]));
+        if rng.chance(50) {
+            out.line(format!("exchange {}", rng.pick(&["mock", "simulated"])));
+        }
+        let mode = if rng.chance(60) { "mode events" } else { "mode handler" };
+        if rng.chance(30) {
+            out.line(format!("subs {}", rng.pick(&[1u64, 2, 5, 50, 300])));
+        }
+        match fam {
+            0 => {
+                // long failure runs: the repository's policy reaches 60 000 ms after 10 failures and stays there
+                out.line(*rng.pick(&[
+                    "policy default",
+                    "policy default",
+                    "policy default",
+                    "policy 1 2 60000",
+                    "policy 1 255 1000000",
+                    "policy 7 3 100000",
+                    "policy 500 2 500",
+                    "policy 1 2 100000000",
+                ]));
+                out.line(mode);
+                out.line(gen_conn(&mut rng, 0, 3, 10, 0));
+                for _ in 0..rng.range(10, if thorough { 70 } else { 36 }) {
+                    out.line("conn fail");
+                }
+                out.line(gen_conn(&mut rng, 0, 3, 10, 0));
+                for _ in 0..rng.range(0, 14) {
+                    out.line(gen_conn(&mut rng, 80, 2, 10, 0));
+                }
+                if rng.chance(50) {
+                    out.line("conn ok i1 hang");
+                }
+            }
+            1 => {
+                out.line(gen_policy(&mut rng));
+                out.line(mode);
+                let n_conn = rng.range(50, if thorough { 90 } else { 60 });
+                let fail_pct = *rng.pick(&[20u64, 50, 75]);
+                out.line(gen_conn(&mut rng, 0, 3, 20, 0));
+                for _ in 1..n_conn {
+                    out.line(gen_conn(&mut rng, fail_pct, 3, 20, 0));
+                }
+            }
+            2 => {
+                // at most 3 failures in all (virtual-time bound)
+                let initial = *rng.pick(&[4294967295u64, 4294967296, 4294967297, 5000000000, 1000000]);
+                let mult = *rng.pick(&[1u64, 2, 255]);
+                let max = *rng.pick(&[4294967296u64, 4294967297, 5000000000, 8589934592]);
+                out.line(format!("policy {initial} {mult} {max}"));
+                out.line(mode);
+                let mut fails = 0;
+                out.line(gen_conn(&mut rng, 0, 3, 10, 0));
+                for _ in 0..rng.range(2, 7) {
+                    if fails < 3 && rng.chance(60) {
+                        fails += 1;
+                        out.line("conn fail");
+                    } else {
+                        out.line(gen_conn(&mut rng, 0, 3, 20, 0));
+                    }
+                }
+            }
+            3 => {
+                out.line(*rng.pick(&[
+                    "policy 500 2 500",
+                    "policy 1 1 1",
+                    "policy 60000 2 60000",
+                    "policy 1 0 1",
+                    "policy 125 4 500",
+                    "policy 125 2 1000",
+                    "policy 125 2 999",
+                    "policy 125 2 1001",
+                    "policy 125 2 64000",
+                    "policy 125 2 63999",
+                    "policy 1 255 65025",
+                    "policy 1 255 65024",
+                    "policy 1 255 65026",
+                    "policy 501 2 500",
+                    "policy 499 2 500",
+                    "policy 0 255 0",
+                    "policy 1 2 0",
+                ]));
+                out.line(mode);
+                out.line(gen_conn(&mut rng, 0, 2, 10, 0));
+                for _ in 0..rng.range(1, 3) {
+                    for _ in 0..rng.range(2, 11) {
+                        out.line("conn fail");
+                    }
+                    out.line(gen_conn(&mut rng, 0, 2, 10, 0));
+                }
+            }
+            _ => {
+                out.line(gen_policy(&mut rng));
+                out.line(mode);
+                for _ in 0..rng.range(1, 4) {
+                    let len = rng.range(20, if thorough { 120 } else { 60 }) as usize;
+                    let t_at = match rng.below(5) {
+                        0 => Some(0),
+                        1 => Some(len - 1),
+                        2 => Some(rng.below(len as u64) as usize),
+                        _ => None,
+                    };
+                    let hang = rng.chance(15);
+                    out.line(gen_long_conn(&mut rng, len, t_at, hang));
+                    if rng.chance(50) {
+                        out.line("conn fail");
+                    }
+                }
+                out.line("conn ok i7");
+            }
+        }
+    }
 }
 
 fn main() {
